@@ -84,11 +84,11 @@ def gen_cases(rng, tier):
         perm_s = list(range(ns))
         rng.shuffle(perm_s)
         cases.append({'m': m, 'cubic': kind == 'cubic', 'sites8': [list(p) for p in pts], 'labels': labels, 'li': li, 'fw': fw, 'rseed': rng.randrange(10**6),
-                      'shift8': [rng.randint(0, 7) for _ in range(3)], 'perm_a': perm_a, 'perm_s': perm_s, 'dict_radius': rng.random() < 0.5})
+                      'shift8': [rng.randint(0, 7) for _ in range(3)], 'perm_a': perm_a, 'perm_s': perm_s, 'dict_radius': rng.random() < 0.5, 'site_scale': rng.choice([1.0, 1.0, 1.03])})
     return cases
 
 
-def _pipeline(m, rot, li, fw, sites8, labels, cubic, dict_radius=False):
+def _pipeline(m, rot, li, fw, sites8, labels, cubic, dict_radius=False, site_scale=1.0):
     """run the real API; returns a dict of canonical results"""
     from gemdat.jumps import Jumps
     from gemdat.rdf import radial_distribution_between_species
@@ -99,7 +99,9 @@ def _pipeline(m, rot, li, fw, sites8, labels, cubic, dict_radius=False):
     species = ['Li'] * li.shape[1] + ['S'] * fw.shape[1]
     traj = synth.make_traj(m, species, coords, rot=rot)
     lat = traj.get_lattice()
-    sites = Structure(lattice=lat, species=['Li'] * len(sites8), coords=np.array(sites8, dtype=float) / 8, labels=labels)
+    # site structure in a slightly different cell than the simulation (same for the original and every transformed copy)
+    from pymatgen.core import Lattice
+    sites = Structure(lattice=Lattice(np.array(lat.matrix) * site_scale), species=['Li'] * len(sites8), coords=np.array(sites8, dtype=float) / 8, labels=labels)
     out = {}
     try:
         # the same radius given per label exercises the per-label search (group-local -> global site indices) under site permutations
@@ -154,20 +156,20 @@ def _run(case):
     res = {}
     vm = case['cubic'] or _generic_resolution(m)        # True (cubic, 8^3 voxels) / resolution for a non-cubic cell / None
     vt = case['cubic'] or None                          # translated copy: only when the shift is a whole number of voxels (cubic 8^3 grid)
-    res['base'] = _pipeline(m, None, li, fw, s8, lab, vm, case.get('dict_radius', False))
-    res['rot'] = _pipeline(m, rot, li, fw, s8, lab, vm, case.get('dict_radius', False))
+    res['base'] = _pipeline(m, None, li, fw, s8, lab, vm, case.get('dict_radius', False), case.get('site_scale', 1.0))
+    res['rot'] = _pipeline(m, rot, li, fw, s8, lab, vm, case.get('dict_radius', False), case.get('site_scale', 1.0))
     sh = [c * 512 for c in case['shift8']]
     li_t = [[[p[k] + sh[k] for k in range(3)] for p in fr] for fr in li]
     fw_t = [[[p[k] + sh[k] for k in range(3)] for p in fr] for fr in fw]
     s8_t = [[(p[k] + case['shift8'][k]) % 8 for k in range(3)] for p in s8]
-    res['trans'] = _pipeline(m, None, li_t, fw_t, s8_t, lab, vt, case.get('dict_radius', False))
+    res['trans'] = _pipeline(m, None, li_t, fw_t, s8_t, lab, vt, case.get('dict_radius', False), case.get('site_scale', 1.0))
     pa = case['perm_a']
     li_p = [[fr[pa[a]] for a in range(len(pa))] for fr in li]          # new atom a is old atom pa[a]
-    res['perm_atoms'] = _pipeline(m, None, li_p, fw, s8, lab, vm, case.get('dict_radius', False))
+    res['perm_atoms'] = _pipeline(m, None, li_p, fw, s8, lab, vm, case.get('dict_radius', False), case.get('site_scale', 1.0))
     ps = case['perm_s']
     s8_p = [s8[ps[k]] for k in range(len(ps))]                          # new site k is old site ps[k]
     lab_p = [lab[ps[k]] for k in range(len(ps))]
-    res['perm_sites'] = _pipeline(m, None, li, fw, s8_p, lab_p, vm, case.get('dict_radius', False))
+    res['perm_sites'] = _pipeline(m, None, li, fw, s8_p, lab_p, vm, case.get('dict_radius', False), case.get('site_scale', 1.0))
     return res
 
 
